@@ -63,7 +63,7 @@ impl Check for C09 {
                 ops.extend(burst);
                 ops.push(if from_client { WOp::ClientDisconnect { c: 0, now } } else { WOp::ServerDisconnect { c: 0, now } });
                 ops.extend(after);
-                WCase { seed, server: ServerCfg { ep: EpCfg { keepalive_interval_ms: 1000, ..EpCfg::default() }, ..ServerCfg::default() }, clients: vec![client], ops, settle_step_us, settle_us: 60_000_000 }
+                WCase { seed, server: ServerCfg { ep: EpCfg { keepalive_interval_ms: 1000, ..EpCfg::default() }, ..ServerCfg::default() }, clients: vec![client], ops, settle_step_us, settle_us: 60_000_000, server_event_limit: None }
             });
         prop_oneof![1 => wcase_strategy(&p), 2 => structured].boxed()
     }
